@@ -185,11 +185,11 @@ def run(ck, tier):
     cls = cx.idx.cls(PROTO)
     n = r1_execute(ck, cx, cls)
     r1_execute(ck, cx, cx.idx.cls(UDP))
-    r2_tid(ck, cx)
-    r3_r4_handle(ck, cx, cls)
+    ck.guard(r2_tid, ck, cx)
+    ck.guard(r3_r4_handle, ck, cx, cls)
     r3_r4_handle(ck, cx, cx.idx.cls(UDP))
-    r4_managers(ck, cx)
-    r5_r6_connection(ck, cx, cls)
+    ck.guard(r4_managers, ck, cx)
+    ck.guard(r5_r6_connection, ck, cx, cls)
     # which manager the protocol uses
     init = cx.method(cls, '__init__')
     txt = [U(n.value.func) for n in ast.walk(init.node) if isinstance(n, ast.Assign) and U(n.targets[0]) == 'self.transaction' and isinstance(n.value, ast.Call)]
